@@ -197,7 +197,11 @@ StructDefs ==
 GV(n, vk, is) == GVar(n, vk, MkFields(is, vk = "tuple"))
 VariantPool == << GV("U", "unit", <<>>), GV("T", "tuple", <<6>>), GV("P", "tuple", <<2, 7>>), GV("N", "named", <<3>>),
                   GV("M", "named", <<6, 12>>), GV("Z", "tuple", <<1>>), GV("Q", "named", <<2, 16>>),
-                  GV("H", "tuple", <<9, 2>>), GV("O", "tuple", <<8>>), GV("C", "named", <<13>>) >>
+                  GV("H", "tuple", <<9, 2>>), GV("O", "tuple", <<8>>), GV("C", "named", <<13>>),
+                  \* a parameter-typed (ε-copied) field *before* fully copied ones, and between them: the order in which
+                  \* the derived ε-copy reader evaluates the initialisers is the order of the stream
+                  GV("R", "named", <<6, 2>>), GV("K", "named", <<2, 6, 4>>), GV("W", "tuple", <<6, 2>>),
+                  GV("J", "named", <<6, 3, 12>>) >>
 VarIdx(vs) == Cat([j \in 1..Len(vs) |-> <<vs[j]>>])
 EnumFieldIdx(vs) == Cat([j \in 1..Len(vs) |-> [k \in 1..Len(VariantPool[vs[j]].fields) |->
                       CHOOSE x \in 1..16 : FT(x) = VariantPool[vs[j]].fields[k].g]])
@@ -206,8 +210,8 @@ GEnum(vs, v) ==
       base == DefEnum("E" \o Code(vs) \o "v" \o NumS(v), FALSE, FALSE, <<>>, CParams(is), TParams(is),
                       [j \in 1..Len(vs) |-> VariantPool[vs[j]]])
   IN Attr(base, v)
-VarLists == {<<i>> : i \in 1..10} \cup {<<i, j>> : i \in {1, 2, 5}, j \in {3, 4, 6, 7, 9}}
-            \cup {<<1, 2, 4>>, <<5, 1, 3>>, <<2, 10, 1>>, <<1, 6, 7>>, <<8, 1, 6>>}
+VarLists == {<<i>> : i \in 1..14} \cup {<<i, j>> : i \in {1, 2, 5}, j \in {3, 4, 6, 7, 9, 11, 12}}
+            \cup {<<1, 2, 4>>, <<5, 1, 3>>, <<2, 10, 1>>, <<1, 6, 7>>, <<8, 1, 6>>, <<1, 11, 13>>, <<14, 12, 1>>}
 EnumZcOk(vs) == ZcOk(EnumFieldIdx(vs))
 EnumOk(vs) == WellFormedIdx(EnumFieldIdx(vs))
 EnumDefs ==
